@@ -484,6 +484,36 @@ def probe_fixed_defects():
         v = float(c.relent(xe, ye).value)
         if not (abs(v - want) <= 1e-12):
             return 'relent with a zero first argument evaluates to %r at z=0, expected %r (x log(x/y) = 0 at x = 0)' % (v, want)
+    # cells are values: an augmented assignment on one cell (or on a name bound to a cell) never changes another cell or a Variable
+    xa = c.Variable(shape=(3,), name='alias')
+    xa.value = np.array([1.0, 2.0, 3.0])
+    tl = c.tile(xa, 2)
+    tl[0] += 10
+    if [float(v) for v in np.asarray(tl.value).tolist()] != [11.0, 2.0, 3.0, 1.0, 2.0, 3.0] or [float(v) for v in np.asarray(xa.value).tolist()] != [1.0, 2.0, 3.0]:
+        return 't = tile(x, 2); t[0] += 10 gives t.value = %s, x.value = %s' % (np.asarray(tl.value).tolist(), np.asarray(xa.value).tolist())
+    ea = 2 * xa + 1
+    s0 = ea[0]
+    s0 += 5
+    s0 *= 2
+    if [float(v) for v in np.asarray(ea.value).tolist()] != [3.0, 5.0, 7.0]:
+        return 's = e[0]; s += 5; s *= 2 changed e.value to %s' % np.asarray(ea.value).tolist()
+    rp = c.repeat(ea, 2)
+    rp[1] -= 4
+    if [float(v) for v in np.asarray(rp.value).tolist()] != [3.0, -1.0, 5.0, 5.0, 7.0, 7.0]:
+        return 'r = repeat(e, 2); r[1] -= 4 gives r.value = %s' % np.asarray(rp.value).tolist()
+    # stacking an affine Expression with numeric arrays gives an Expression all of whose cells can be evaluated
+    for name, fe, want in (('hstack((e, [1,2]))', lambda: c.hstack((ea, np.array([1.0, 2.0]))), [3.0, 5.0, 7.0, 1.0, 2.0]),
+                           ('concatenate(([4.], e))', lambda: c.concatenate((np.array([4.0]), ea)), [4.0, 3.0, 5.0, 7.0]),
+                           ('stack((e, [0,1,2]))', lambda: c.stack((ea, np.array([0.0, 1.0, 2.0]))), [[3.0, 5.0, 7.0], [0.0, 1.0, 2.0]]),
+                           ('block([e, 9.])', lambda: c.block([ea, np.array([9.0])]), [3.0, 5.0, 7.0, 9.0])):
+        try:
+            got = fe()
+            val = np.asarray(got.value, dtype=float).tolist()
+            const = bool(got.is_constant())
+        except Exception as ex:
+            return '%s with e = 2x+1: evaluating the result raises %s' % (name, type(ex).__name__)
+        if val != want or const:
+            return '%s with e = 2x+1 evaluates to %s (is_constant=%s), numpy gives %s' % (name, val, const, want)
     # badly scaled data: products of small coefficients are still coefficients (no thresholding in matrix products)
     xs = c.Variable(shape=(2,), name='scaled')
     e = 2.0 ** -20 * xs + 1.0
